@@ -142,6 +142,10 @@ type Failure struct {
 	Nondets []ReplayVal
 	Obs     []string
 	Trail   []int64
+	// MapOrders counts the map iterations whose order the engine chose on this path
+	// (vMapOrder(2)): the native build picks its own, so such a failure is replayed
+	// repeatedly.
+	MapOrders int
 }
 
 type ReplayVal struct {
@@ -244,6 +248,7 @@ type Machine struct {
 	DepthMax        int
 	MapOrder        int // 0 insertion, 1 reverse, 2 explore orders
 	MapOrderDefault int
+	mapOrders       int
 
 	// per path
 	globals      map[*ssa.Global]*Value
@@ -580,23 +585,16 @@ func (m *Machine) model(extra *sym.Term) ([]ReplayVal, []string, bool) {
 	}
 	if want != nil || extra != nil {
 		for iter := 0; ; iter++ {
-			q := extra
+			var q []*sym.Term
+			if extra != nil {
+				q = append(q, extra)
+			}
 			if corpusQ != nil {
-				if q == nil {
-					q = corpusQ
-				} else {
-					q = m.Ctx.And(q, corpusQ)
-				}
+				q = append(q, corpusQ)
 			}
-			for _, f := range m.ufFacts {
-				if q == nil {
-					q = f
-				} else {
-					q = m.Ctx.And(q, f)
-				}
-			}
+			q = append(q, m.ufFacts...)
 			var r sym.Result
-			r, env = m.Solver.Check(q, want)
+			r, env = m.Solver.CheckAll(q, want)
 			if r != sym.Sat && corpusQ != nil {
 				corpusQ = nil // no corpus witness: unrestricted search
 				iter = -1
@@ -706,7 +704,7 @@ func (m *Machine) model(extra *sym.Term) ([]ReplayVal, []string, bool) {
 // ufCorpus: tokens on which the strconv functions are sensitive to base, bit size,
 // trimming and spelling.
 var ufCorpus = []string{"0", "1", "7", "-", "+", "a", "t", "T", "f", "F", "x", " ", "",
-	"-1", "+5", "10", "07", "1.", ".5", "1e", "0x", "on", "no", " 5", "5 ", "1_", "_1", "tT",
+	"-1", "+5", "10", "07", "08", "09", "0b", "0o", "1.", ".5", "1e", "0x", "on", "no", " 5", "5 ", "1_", "_1", "tT",
 	"1e3", "010", "0x1", "1_0", "0b1", "0o7", "inf", "Inf", "NaN", "nan", "1.5", "-.5", "+.5", "1e+", "yes", "off", " 10", "10 ", "255", "256", "-00", "0_1",
 	"0x10", "1_00", "1e10", "true", "True", "TRUE", "tRUE", "0b11", "0o17", "+Inf", "-Inf", "+inf", "1e-3", "0x1p", "1.50", "-128", "128 ", " 128", "0X1F", "1__0", "1E10",
 	"false", "False", "FALSE", "0x1p4", "1_000", "32768", "65536", "-0x10", "+0x10", "1e400", "0b101", "1.e+1",
@@ -953,7 +951,7 @@ func (m *Machine) failWith(kind, msg string, extra *sym.Term) {
 		return
 	}
 	m.Stats.AssertsFailed++
-	m.failure = &Failure{Kind: kind, Msg: msg, Nondets: nd, Obs: obs}
+	m.failure = &Failure{Kind: kind, Msg: msg, Nondets: nd, Obs: obs, MapOrders: m.mapOrders}
 	if kind == "limit" {
 		m.end("limit", msg)
 	}
@@ -1025,6 +1023,7 @@ func (m *Machine) resetPath() {
 	m.nvar = 0
 	m.nopaque = 0
 	m.MapOrder = m.MapOrderDefault
+	m.mapOrders = 0
 	m.inconcl = false
 	m.failure = nil
 	m.trackGlobals = false
@@ -1057,7 +1056,7 @@ func (m *Machine) RunPath(entry *ssa.Function, sample bool) (res PathResult) {
 				} else if !ok {
 					m.inconcl = true
 				} else {
-					m.failure = &Failure{Kind: "panic", Msg: "uncaught panic: " + res.Detail, Nondets: nd, Obs: obs}
+					m.failure = &Failure{Kind: "panic", Msg: "uncaught panic: " + res.Detail, Nondets: nd, Obs: obs, MapOrders: m.mapOrders}
 				}
 			default:
 				// a defect of the engine itself: the path is undecided, never a verdict
